@@ -1,4 +1,4 @@
-(* C02 (round 7) — ValueStack is a list: property-level theorems.  Only statements, [exact lemma], Print Assumptions.
+(* C02 (round 7; copy_index/move_index follow /repo 5407d30) — ValueStack is a list: property-level theorems.  Only statements, [exact lemma], Print Assumptions.
    The functions vs_* are the definitions of Model.v that the correspondence shards run against the real
    skrifa ValueStack on every check; the spec_* functions (VsProofs.v) are plain list programs (stack = list, bottom first;
    [rev] reads it top first).  [refines cap m lm] : on every state with a backing store of cap cells and 0 <= len <= cap,
@@ -23,8 +23,8 @@ Theorem c02_value_stack_refines_list : forall cap, cap <= isize_max ->
   refines cap vs_clear spec_clear /\
   (forall ped, refines cap (vs_dup ped) (spec_dup cap ped)) /\
   (forall ped, refines cap (vs_swap ped) (spec_swap cap ped)) /\
-  refines cap vs_copy_index spec_copy_index /\
-  refines cap vs_move_index spec_move_index /\
+  (forall ped, refines cap (vs_copy_index ped) (spec_copy_index cap ped)) /\
+  (forall ped, refines cap (vs_move_index ped) (spec_move_index ped)) /\
   (forall ped, refines cap (vs_roll ped) (spec_roll cap ped)).
 Proof. exact value_stack_refines_list_lemma. Qed.
 
@@ -36,44 +36,43 @@ Theorem c02_value_stack_run_is_list_machine : forall (store : list Z) (ped : boo
              stk s' = fst (spec_run (zlen store) ped ops []) /\ zlen (vals s') = zlen store.
 Proof. exact value_stack_run_is_list_machine_lemma. Qed.
 
-(* copy_index (CINDEX), conventions spelled out.  Top-first stack v :: r, v the index operand (an i32, read `as usize`):
-   empty -> Underflow; v < 0 -> Underflow; v > |r| (v >= len) -> Underflow — in all three the stack is unchanged (the
-   index is NOT popped); 0 <= v <= |r| -> Ok and the index cell is replaced by nth v (v :: r): v = 0 is the index cell
-   itself (no change), v = |r| = len - 1 is the bottom element *)
-Theorem c02_copy_index_spec : forall l,
-  zlen l <= isize_max ->
+(* copy_index (CINDEX) since /repo 5407d30, conventions spelled out.  l = whole stack, rev l = v :: r: v the index operand
+   (popped first), r the stack below it (top first).  [bad_index v r] := v <= 0 \/ |r| < v.
+   empty stack: pedantic -> Underflow; non-pedantic -> the index reads as 0 and 0 is pushed (Overflow iff capacity 0).
+   bad index:   pedantic -> Err InvalidStackValue(v), index stays popped; non-pedantic -> Ok, the index cell becomes 0.
+   1 <= v <= |r|, both modes: Ok, the index cell is replaced by r[v-1] (v = 1: the cell just below, v = |r|: the bottom) *)
+Theorem c02_copy_index_spec : forall cap l, zlen l <= cap ->
   match rev l with
-  | [] => spec_copy_index l = (l, Err EUnderflow)
+  | [] => spec_copy_index cap true l = (l, Err EUnderflow) /\
+          spec_copy_index cap false l = (if 0 <? cap then ([0], Ok tt) else ([], Err EOverflow))
   | v :: r =>
-      (v < 0 -> - 2 ^ 63 <= v -> spec_copy_index l = (l, Err EUnderflow)) /\
-      (0 <= v < 2 ^ 64 -> zlen r < v -> spec_copy_index l = (l, Err EUnderflow)) /\
-      (0 <= v <= zlen r -> spec_copy_index l = (rev (nth (Z.to_nat v) (v :: r) 0 :: r), Ok tt)) /\
-      (v = 0 -> spec_copy_index l = (l, Ok tt))
+      (bad_index v r -> spec_copy_index cap true l = (rev r, Err (EInvalidStackValue v)) /\
+                        spec_copy_index cap false l = (rev (0 :: r), Ok tt)) /\
+      (1 <= v <= zlen r -> forall ped, spec_copy_index cap ped l = (rev (nth (Z.to_nat (v - 1)) r 0 :: r), Ok tt))
   end.
 Proof. exact copy_index_cases_lemma. Qed.
 
-(* move_index (MINDEX).  Top-first stack v :: r: empty, v < 0, v > |r|, or r = [] (len = 1) -> Underflow, unchanged;
-   v = 0 with r = y :: r' -> Ok, stack 0 :: r' (index popped AND the cell below it overwritten by the index value 0);
-   1 <= v <= |r| -> Ok, stack r[v-1] :: r[0..v-1) ++ r[v..): the v-th element below the index is removed and pushed *)
+(* move_index (MINDEX) since /repo 5407d30.  empty stack: pedantic -> Underflow; non-pedantic -> Ok, nothing changes.
+   bad index: pedantic -> Err InvalidStackValue(v); non-pedantic -> Ok; in both the index is popped and nothing else changes.
+   1 <= v <= |r|, both modes: Ok, stack r[v-1] :: r[0..v-1) ++ r[v..): the v-th cell below the index is removed and pushed *)
 Theorem c02_move_index_spec : forall l,
-  zlen l <= isize_max ->
   match rev l with
-  | [] => spec_move_index l = (l, Err EUnderflow)
+  | [] => spec_move_index true l = (l, Err EUnderflow) /\ spec_move_index false l = (l, Ok tt)
   | v :: r =>
-      (v < 0 -> - 2 ^ 63 <= v -> spec_move_index l = (l, Err EUnderflow)) /\
-      (0 <= v < 2 ^ 64 -> zlen r < v -> spec_move_index l = (l, Err EUnderflow)) /\
-      (r = [] -> spec_move_index l = (l, Err EUnderflow)) /\
-      (v = 0 -> forall y r', r = y :: r' -> spec_move_index l = (rev (0 :: r'), Ok tt)) /\
-      (1 <= v <= zlen r ->
-         spec_move_index l =
+      (bad_index v r -> spec_move_index true l = (rev r, Err (EInvalidStackValue v)) /\
+                        spec_move_index false l = (rev r, Ok tt)) /\
+      (1 <= v <= zlen r -> forall ped,
+         spec_move_index ped l =
            (rev (nth (Z.to_nat (v - 1)) r 0 :: firstn (Z.to_nat (v - 1)) r ++ skipn (Z.to_nat v) r), Ok tt))
   end.
 Proof. exact move_index_cases_lemma. Qed.
 
-(* neither operation looks at is_pedantic *)
-Theorem c02_index_ops_ignore_pedantic : forall ped ped' s,
-  vs_step ped OCopyIndex s = vs_step ped' OCopyIndex s /\ vs_step ped OMoveIndex s = vs_step ped' OMoveIndex s.
-Proof. exact index_ops_ignore_pedantic_lemma. Qed.
+(* replaces c02_index_ops_ignore_pedantic (false since 5407d30): the pedantic flag matters EXACTLY when the stack is
+   empty or the index on top is outside 1..=depth ([good_index_on_top l] := rev l = v :: r with 1 <= v <= |r|) *)
+Theorem c02_index_ops_pedantic_only_on_bad_index : forall cap l, zlen l <= cap ->
+  (spec_copy_index cap true l = spec_copy_index cap false l <-> good_index_on_top l) /\
+  (spec_move_index true l = spec_move_index false l <-> good_index_on_top l).
+Proof. exact index_ops_pedantic_only_on_bad_index_lemma. Qed.
 
 (* closed forms of the composite operations (bottom-first lists; l is the untouched lower part) *)
 Theorem c02_value_stack_composite_closed_forms : forall cap ped l a b c,
@@ -93,5 +92,5 @@ Print Assumptions c02_value_stack_refines_list.
 Print Assumptions c02_value_stack_run_is_list_machine.
 Print Assumptions c02_copy_index_spec.
 Print Assumptions c02_move_index_spec.
-Print Assumptions c02_index_ops_ignore_pedantic.
+Print Assumptions c02_index_ops_pedantic_only_on_bad_index.
 Print Assumptions c02_value_stack_composite_closed_forms.
